@@ -88,7 +88,9 @@ static std::string body_export_fd(int slot, int comp) {   // W1..W3: descriptor 
 }
 static std::string body_export_named(int slot, int comp) {  // W4: named sink with two rotations
     Pools P = make_pools(1000); BlockParameters bp; bp.storage_parameters.max_block_items = 3; bp.storage_parameters.ticks_per_second = 1000; std::vector<BlockParameters> bps = {bp}; FilePreamble fp(bps);
-    std::string base = g_dir + "/n" + std::to_string(getpid()) + "_" + std::to_string(slot) + "_" + std::to_string(comp) + "_"; std::string d;
+    // a plain exporter in slot k and a gzip exporter in slot k + 1 use the SAME base names: their outputs <name> and <name>.gz are distinct files, anything else
+    // derived from the name (temporary files) has to be distinct as well
+    std::string base = g_dir + "/n" + std::to_string(getpid()) + "_" + std::to_string(slot - (comp ? 1 : 0)) + "_"; std::string d;
     { CdnsExporter e(fp, base + "0", comp == 0 ? CborOutputCompression::NO_COMPRESSION : CborOutputCompression::GZIP);
       for (int i = 0; i < 9; i++) { e.buffer_qr(rec_of(P, slot + 3, i)); if (i == 3) e.rotate_output(base + "1", true); if (i == 6) e.rotate_output(base + "2", false); } e.write_block(); }
     for (int k = 0; k < 3; k++) { std::string b = slurp(base + std::to_string(k) + (comp ? ".gz" : "")); d += std::to_string(b.size()) + ":" + std::to_string(fnv(b)) + ","; }
